@@ -24,7 +24,7 @@ def run(ctx, res):
         "scenarios generated ONLINE against the real _KafkaBrokerClient with a scripted retry policy and the Clock reactor: drops before/"
         "between/inside frames, while connecting, during back-off, repeated connect failures, drops twice in a row, mixed answered/cancelled/"
         "unsent/no-reply request sets, interleaved cancel/close/disconnect/updateMetadata; plus bounded-exhaustive enumeration of the reachable "
-        "states (19-symbol alphabet, two ids). Compared per event: observations in strict order (which serial was written to which connection, "
+        "states (29-symbol alphabet, two ids). Compared per event: observations in strict order (which serial was written to which connection, "
         "connection attempts, timers with their delays, Deferred firings) and the internal state (white box). non-trivial (C10) = a re-send "
         "after a drop, a back-off timer that fired, a close with pending requests, or an idle/closing drop. distinct = by content hash."
     )
